@@ -148,9 +148,18 @@ class FindIdentifiers(_ast_util.NodeVisitor):
         self.in_function = True
 
         local_ident_stack = self.local_ident_stack
-        self.local_ident_stack = local_ident_stack.union(
-            [arg_id(arg) for arg in self._expand_tuples(node.args.args)]
-        )
+        args = node.args
+        argnames = [
+            arg_id(arg)
+            for arg in self._expand_tuples(
+                getattr(args, "posonlyargs", []) + args.args + args.kwonlyargs
+            )
+        ]
+        if args.vararg is not None:
+            argnames.append(arg_id(args.vararg))
+        if args.kwarg is not None:
+            argnames.append(arg_id(args.kwarg))
+        self.local_ident_stack = local_ident_stack.union(argnames)
         if islambda:
             self.visit(node.body)
         else:
